@@ -141,6 +141,11 @@ func runC02(rt *rapid.T, st *stats.Collector) {
 		QuotaKey: shortStr.Draw(rt, "quota"), Secret: shortStr.Draw(rt, "secret"), InitialUser: shortStr.Draw(rt, "initial-user"),
 		Settings: drawChSettings(rt, "query-setting"),
 	}
+	if len(opt.Settings) > 0 && len(q.Settings) > 0 && rapid.IntRange(0, 2).Draw(rt, "same-key-on-both-levels") == 0 {
+		// the query overrides a connection-level setting: both entries go out, in that order
+		q.Settings[rapid.IntRange(0, len(q.Settings)-1).Draw(rt, "which-query-setting")].Key = opt.Settings[rapid.IntRange(0, len(opt.Settings)-1).Draw(rt, "which-conn-setting")].Key
+		st.Label("same-setting-key-on-both-levels")
+	}
 	if N >= ref.RevParameters {
 		np := rapid.IntRange(0, 3).Draw(rt, "params")
 		for i := 0; i < np; i++ {
